@@ -1032,6 +1032,9 @@ def run(chk):
     # ---- laziness / needed-prefix sweep over every library function that takes a generator (c16_lazy.py)
     from . import c16_lazy
     c16_lazy.run_sweep(chk)
+    # ---- every terminal consumer on the same generator value, against its own to_array, the oracle and the model (c16_coh.py)
+    from . import c16_coh
+    c16_coh.run_coherence(chk)
     for c in cases[len(fixed):len(fixed) + 4]:
         chk.sample({"program": f"let g = {c[0].src}; let a = g.{c[3]}; let b = g.{c[3]};", "model": " ".join(c[0].toks)})
     return chk.finish(rule="pipelines of 1-%d generator operations over arrays, count(), count(a,b), successors, successors_until, "
